@@ -56,7 +56,9 @@ def run(tier, seed):
                 ri.append((sp, dict(o, presim=1, presim_cut=k + 1, res_absence={wn[0]: [k]})))  # ... after a personal absence step of the first worker
     ri += stepcheck.resumed_edit_items(("worker-absence-append-3",), ks=(1, 2, 3))
     # a checkpoint written at step k and read back - into a new project, and into the same project object - before the run goes on
-    for sp, o in its[:: (11 if tier == "quick" else 4)]:
+    dup = F.with_teams({"tasks": [{"name": "T0", "work": 3.0}, {"name": "T1", "work": 2.0}], "links": [[0, 1, "FS"]]}, "POOL1")
+    dup["teams"][0]["targets"] = [0, 0, 1]  # the first task was linked to the team twice
+    for sp, o in its[:: (11 if tier == "quick" else 4)] + [(dup, {"rule": "TSLACK", "max_time": 14})]:
         for k in (1, 2):
             for how in (True, "same"):
                 ri.append((sp, dict(o, resume_from=k, resume_via_json=how)))
